@@ -154,3 +154,57 @@ class C06(Prop):
         for cut in range(len(f) + 1):
             s = pre + f + f
             yield ("FEED " + hx(s[:2 + cut]) + "|" + hx(s[2 + cut:]), "cut-at-every-offset", True)
+
+
+@register
+class C04(Prop):
+    id = "C04"
+
+    def rule(self):
+        return ("FLIP ops: valid frames (payload lengths 0..40 all, plus long ones; all message numbers sampled) x "
+                "every single admissible bit (reserved header bits 8..13, payload, checksum) for short frames and "
+                "sampled for long ones; all bit pairs for frames <= 10 bytes (thorough: <= 24) and sampled pairs "
+                "otherwise; bursts of every length 2..=24 at sampled (thorough: every) start position with random "
+                "interior; odd-weight random patterns. Oracle: altered frame rejected as NotValid and not delivered "
+                "at offset 0 by the scanner. Non-trivial = distinct (frame, flip set) with a non-empty flip set.")
+
+    def trusted(self):
+        return ["crc-any computes CRC-24Q (checked on every op against the bit-serial definition)"]
+
+    def gen(self, ctx):
+        r = ctx.rng("gen")
+        thorough = ctx.tier == "thorough"
+        frames = []
+        for L in list(range(0, 12)) + [r.randrange(12, 60) for _ in range(6 if not thorough else 30)] + [255, 1023]:
+            frames.append(mk_frame(payload_for(r, L, r.choice(SUPPORTED)), r.choice([0, 0, 63, r.randrange(64)])))
+
+        def admissible(nbits):
+            return [p for p in range(nbits) if 8 <= p < 14 or p >= 24]
+
+        for f in frames:
+            nb = len(f) * 8
+            adm = admissible(nb)
+            h = hx(f)
+            singles = adm if (len(f) <= 70 or thorough) else r.sample(adm, 300)
+            for p in singles:
+                yield (f"FLIP {h} {p}", "single", True)
+            if len(f) <= (24 if thorough else 10):
+                for i in range(len(adm)):
+                    for j in range(i + 1, len(adm)):
+                        yield (f"FLIP {h} {adm[i]},{adm[j]}", "pair-all", True)
+            else:
+                for _ in range(400 if thorough else 80):
+                    a, b = r.sample(adm, 2)
+                    yield (f"FLIP {h} {a},{b}", "pair-sampled", True)
+            starts = [s for s in adm]
+            for ln in range(2, 25):
+                ss = starts if (thorough and len(f) <= 40) else r.sample(starts, min(len(starts), 6))
+                for s in ss:
+                    bits = [s, s + ln - 1] + [s + k for k in range(1, ln - 1) if r.random() < 0.5]
+                    bits = sorted(set(b for b in bits if b < nb and (8 <= b < 14 or b >= 24)))
+                    if bits:
+                        yield (f"FLIP {h} " + ",".join(map(str, bits)), f"burst", True)
+            for _ in range(60 if thorough else 15):
+                k = r.choice([3, 5, 7, 9, 11, 21, 33])
+                if k <= len(adm):
+                    yield (f"FLIP {h} " + ",".join(map(str, sorted(r.sample(adm, k)))), "odd", True)
